@@ -16,10 +16,31 @@ PID = 'C13'
 LEAN_TARGETS = ['CfVerif.Props.C13']
 PROPS_MODULES = ['CfVerif.Props.C13']
 DRIVER = 'Driver/C13.lean'
-REQUIRED_THEOREMS = ['CfVerif.C13.fp16_exact']
-TRUSTED = ['harness/corr/c13.py translator + correspondence']
-ASSUMPTIONS = []
-RULE = ''
+REQUIRED_THEOREMS = ['CfVerif.C13.' + t for t in (
+    'fp16_exact', 'fp16_signed_arg', 'fp16_live_counterexample',
+    'quat_roundtrip', 'quat_model_is_compressR', 'quat_fields_roundtrip', 'quat_errors',
+    'coordinate_error_lt_one', 'yaw_error_lt_one', 'start_packs_or_raises', 'element_packs_or_raises',
+    'led_rgb565', 'led_monotone', 'led_black_white', 'led_timing_colour',
+    'range_report_decodes', 'range_report_distinct', 'lh_angle_decodes', 'incoming_malformed',
+    'gen_quat_compress', 'gen_quat_decompress', 'gen_trajectory', 'gen_units', 'gen_led', 'gen_incoming', 'gen_lh_angle')]
+EXHAUSTIVE = True      # the half-float decoder and the LED mapping are checked on their whole (finite) domains, every run
+TRUSTED = ['harness/corr/c13.py: the Python->Lean translator (A3) for fp16_to_float / bit expressions, the extractor, the correspondence',
+           'IEEE-754: CPython float * and / are correctly rounded binary64 operations (modelled exactly by truncRn); '
+           'struct codes f/I/h/H/B are little-endian on the host (native = little-endian)',
+           'numpy binary64 evaluation of compress/decompress_quaternion (norm, division, sqrt) vs. the real-number functions '
+           'compressR/decompressR the bound is proved for: compared exactly away from rounding boundaries; the 2-step bound has ~25% slack',
+           'math.degrees (libm) is outside the model: encodeYawDeg takes its result',
+           'Spec/C13: IEEE-754 value of binary16/binary32 patterns; device-side layouts of RANGE_STREAM_REPORT and LH_ANGLE_STREAM packets']
+ASSUMPTIONS = ['quaternion / coordinate inputs are finite floats (NaN/inf inputs are outside the model)',
+               'LED intensity is a non-negative integer; colour levels are ints (int() of floats is outside the model)',
+               'decompress_quaternion is modelled for comp >= 0 (a negative word indexes q[] from the end)',
+               'binary64 subtraction base - offset in _decode_lh_angle is kept symbolic in the model and evaluated by the harness']
+RULE = ('cases = ALL 65536 half patterns (+ signed readings, wider ints); quaternions from a sign/axis/diagonal grid with exact ties '
+        'for the largest component, negated, unnormalised, near-axis, negative-zero and random directions, sent to the model as exact '
+        'integer quaternions; words for decompression incl. every index x sign pattern and words >= 2^32; coordinates/angles across '
+        'and beyond the int16 range incl. decimal inputs whose binary64 product rounds onto an integer; ALL 256x101 (level, intensity) '
+        'pairs on every LED channel + wrapped / over-range values; range reports with 0..12 anchors incl. duplicate ids and truncated '
+        'packets; angle packets with special half/single patterns. distinct+non-trivial = distinct (operation, input)')
 
 # ======================================================================================================
 # A3: a deliberately small Python -> Lean translator for pure integer functions.
